@@ -11,8 +11,8 @@ import (
 	"lvharness/hx"
 )
 
-// gateArr1Zero enables [1]byte{0} values (proposed/C11-bytearray1-zero.md: the decoder rejects the encoder's output)
-const gateArr1Zero = false
+// gateArr1Zero enables [1]byte{0} values (known finding bytearray1-zero-not-consumed: the decoder rejects the encoder's output)
+const gateArr1Zero = true
 
 type vgen struct {
 	g     *hx.Gen
